@@ -495,8 +495,8 @@ def command_line(rng, tool="cnfgen", files=None, want_random=None,
                     else ["opb", "latex"]
                 fmt = rng.choice(fmts)
                 argv += [rng.choice(["-of", "--output-format"]), fmt]
-            elif rng.random() < 0.05:
-                argv.append("-l")
+            elif rng.random() < 0.1:
+                argv.append(rng.choice(["-l", "-l", "--latex"]))
                 fmt = "latex"
             if rng.random() < 0.15:
                 outfile = rng.choice(["out.cnf", "out.opb", "out.tex",
@@ -504,6 +504,7 @@ def command_line(rng, tool="cnfgen", files=None, want_random=None,
                 argv += ["-o", outfile]
         if seed is not None:
             argv += [rng.choice(["--seed", "-S"]), str(seed)]
+        optend = len(argv)
         argv += toks
         nvars = KNOWN_COUNT[name](toks) if name in KNOWN_COUNT else None
         for ti, t in enumerate(chain):
@@ -523,9 +524,90 @@ def command_line(rng, tool="cnfgen", files=None, want_random=None,
         if want_random is not None and rnd != want_random:
             continue
         return {"argv": argv, "random": rnd, "name": name, "fmt": fmt,
-                "outfile": outfile, "chain": chain}
+                "outfile": outfile, "chain": chain, "optend": optend}
     return {"argv": [tool, "true"], "random": False, "name": "true",
-            "fmt": None, "outfile": None, "chain": []}
+            "fmt": None, "outfile": None, "chain": [], "optend": 1}
+
+
+WITH_ARG = ("-o", "--output", "-of", "--output-format", "-S", "--seed")
+SHORT_FLAGS = ("-q", "-v", "-l")
+
+
+def respell_options(rng, opts):
+    """The same options in another spelling argparse accepts: another
+    order, '--opt=value', '-ovalue', clusters of short options ('-ql',
+    '-qo file')."""
+    groups = []
+    i = 0
+    while i < len(opts):
+        if opts[i] in WITH_ARG and i + 1 < len(opts):
+            groups.append([opts[i], opts[i + 1]])
+            i += 2
+        else:
+            groups.append([opts[i]])
+            i += 1
+    if rng.random() < 0.3:
+        rng.shuffle(groups)
+    out = []
+    cluster_open = False        # the last token is a cluster of short flags
+    for g in groups:
+        if len(g) == 1:
+            if g[0] in SHORT_FLAGS and cluster_open and rng.random() < 0.6:
+                out[-1] += g[0][1]
+            else:
+                out.append(g[0])
+                cluster_open = g[0] in SHORT_FLAGS
+            continue
+        opt, val = g
+        plain = val != "" and not val.startswith("-")
+        if opt in ("-o", "-S") and cluster_open and rng.random() < 0.6:
+            out[-1] += opt[1]
+            if plain and rng.random() < 0.3:
+                out[-1] += val
+            else:
+                out.append(val)
+        elif rng.random() < 0.3 and (opt.startswith("--") or opt == "-of"):
+            out.append(opt + "=" + val)
+        elif rng.random() < 0.2 and opt in ("-o", "-S") and plain:
+            out.append(opt + val)
+        else:
+            out += [opt, val]
+        cluster_open = False
+    return out
+
+
+def expand_options(argv):
+    """Undo the spellings of respell_options (an independent reading of
+    the conventions of argparse): one token per option and per value."""
+    out = []
+    for a in argv:
+        if a.startswith("--") and "=" in a:
+            out += a.split("=", 1)
+        elif a.startswith("-of="):
+            out += ["-of", a[4:]]
+        elif len(a) > 2 and a[0] == "-" and a[1] != "-" and a != "-of":
+            toks = []
+            j = 1
+            while j < len(a):
+                ch = a[j]
+                if ch in "qvlh":
+                    toks.append("-" + ch)
+                    j += 1
+                elif ch in "oS":
+                    toks.append("-" + ch)
+                    rest = a[j + 1:]
+                    if rest.startswith("="):
+                        rest = rest[1:]
+                    if rest:
+                        toks.append(rest)
+                    j = len(a)
+                else:
+                    toks = None
+                    break
+            out += toks if toks else [a]
+        else:
+            out.append(a)
+    return out
 
 
 def registry_gaps():
